@@ -130,7 +130,11 @@ func (ce *convergenceElem) activate() (successful, retry bool) {
 		}).Info("Failed to start CLA")
 
 		if claRetry {
-			atomic.AddInt32(&ce.ttl, -1)
+			// A negative ttl marks an active CLA. Permanent CLAs are retried even with an exhausted ttl,
+			// so the counter must not drop below zero.
+			if atomic.LoadInt32(&ce.ttl) > 0 {
+				atomic.AddInt32(&ce.ttl, -1)
+			}
 		} else {
 			atomic.StoreInt32(&ce.ttl, 0)
 		}
